@@ -28,6 +28,10 @@ type addrCase struct {
 	Dir     string    `json:"dir"`      // TemplateDir as spelled in the configuration
 	RealDir string    `json:"real_dir"` // the directory it denotes (clean, relative)
 	Ext     string    `json:"ext"`
+	// the documented defaults ("templates", ".tw.html") apply to what the configuration leaves out
+	OmitDir   bool `json:"omit_dir,omitempty"`
+	OmitExt   bool `json:"omit_ext,omitempty"`
+	NilConfig bool `json:"nil_config,omitempty"`
 }
 
 type faultCase struct {
@@ -66,7 +70,17 @@ func c18Addr(c *harness.Check, cs addrCase) string {
 	var failure string
 	pi := c.Guard("json", mustJSON(cs), func() {
 		textwire.VerifReset()
-		tpl, lerr := textwire.NewTemplate(&config.Config{TemplateDir: cs.Dir, TemplateExt: cs.Ext})
+		conf := &config.Config{TemplateDir: cs.Dir, TemplateExt: cs.Ext}
+		if cs.OmitDir {
+			conf.TemplateDir = ""
+		}
+		if cs.OmitExt {
+			conf.TemplateExt = ""
+		}
+		if cs.NilConfig {
+			conf = nil
+		}
+		tpl, lerr := textwire.NewTemplate(conf)
 		if lerr != nil {
 			failure = "unexpected load error: " + lerr.Error()
 			return
@@ -162,7 +176,7 @@ func c18Addr(c *harness.Check, cs addrCase) string {
 
 func TestC18_Addressing(t *testing.T) {
 	c := harness.New(t, "C18", "addressing",
-		"directory trees over names {a, b, idx} at depths {., sub, sub/deep, d<ext>/} with decoys whose names merely contain the extension (a<ext>.bak, a<ext>ig, n.txt inside a directory named x<ext>, a<ext><ext>, the bare extension) and garbage in decoys; template directory nested one or two levels and spelled t, t/, ./t, x/../t, t//, /t; extensions .tw, .tw.html, .html. Oracle: the registered names (hook VerifNames) are exactly {relative path minus extension of every file whose name ends in the extension}; each renders its own content; decoys, unknown names and layouts (files with reserves) are reported as not found; EvaluateFile(path) == EvaluateString(content). Non-trivial: a nested directory, a decoy and a non-canonical spelling. Distinct by hash.")
+		"directory trees over names {a, b, idx} at depths {., sub, sub/deep, d<ext>/} with decoys whose names merely contain the extension (a<ext>.bak, a<ext>ig, n.txt inside a directory named x<ext>, a<ext><ext>, the bare extension) and garbage in decoys; template directory nested one or two levels and spelled t, t/, ./t, x/../t, t//, /t; extensions .tw, .tw.html, .html; one case in six leaves the directory, the extension, both or the whole configuration out (the documented defaults \"templates\" and \".tw.html\" apply). Oracle: the registered names (hook VerifNames) are exactly {relative path minus extension of every file whose name ends in the extension}; each renders its own content; decoys, unknown names and layouts (files with reserves) are reported as not found; EvaluateFile(path) == EvaluateString(content). Non-trivial: a nested directory, a decoy and a non-canonical spelling or a defaulted configuration. Distinct by hash.")
 	defer c.Finish()
 	runRapid(t, c, 2000, 24000, func(rt *rapid.T) {
 		ext := rapid.SampledFrom([]string{".tw", ".tw.html", ".html"}).Draw(rt, "ext")
@@ -180,6 +194,17 @@ func TestC18_Addressing(t *testing.T) {
 			dir = realDir + "//"
 		case "leading":
 			dir = "/" + realDir
+		}
+		cfgForm := "explicit"
+		if rapid.IntRange(0, 5).Draw(rt, "defaults") == 0 {
+			// what the configuration leaves out falls back to "templates" / ".tw.html"
+			cfgForm = rapid.SampledFrom([]string{"nil", "empty", "dir-only", "ext-only"}).Draw(rt, "cfgForm")
+			if cfgForm != "dir-only" {
+				realDir, dir, spell = "templates", "templates", "plain"
+			}
+			if cfgForm != "ext-only" {
+				ext = ".tw.html"
+			}
 		}
 		tr := tree.Tree{"x/keep.txt": {Content: "not a template"}}
 		nFiles := rapid.IntRange(1, 6).Draw(rt, "nFiles")
@@ -214,9 +239,10 @@ func TestC18_Addressing(t *testing.T) {
 		if rapid.Bool().Draw(rt, "doubleExt") {
 			tr[realDir+"/dbl"+ext+ext] = tree.Entry{Content: "FILE:dbl" + ext}
 		}
-		cs := addrCase{Tree: tr, Dir: dir, RealDir: realDir, Ext: ext}
-		nt := nested && decoy && spell != "plain"
-		c.Case(nt, mustJSON(cs), "spelling:"+spell, "ext:"+ext)
+		cs := addrCase{Tree: tr, Dir: dir, RealDir: realDir, Ext: ext, NilConfig: cfgForm == "nil",
+			OmitDir: cfgForm == "empty" || cfgForm == "ext-only", OmitExt: cfgForm == "empty" || cfgForm == "dir-only"}
+		nt := nested && decoy && (spell != "plain" || cfgForm != "explicit")
+		c.Case(nt, mustJSON(cs), "spelling:"+spell, "ext:"+ext, "config:"+cfgForm)
 		if nt {
 			c.Sample(map[string]any{"dir": dir, "ext": ext, "paths": tr.Paths()})
 		}
